@@ -96,6 +96,7 @@ class CreateCheck:
             "(16 KiB) and piece multiples, trees of <= 5 files, depth <= 3; "
             "shapes include a child named like the root and payload files "
             "named like the output metafile",
+            "piece length 2^25 (thorough also 2^20, 2^24) with tiny files",
             "long single files in S: every size up to 2200 (thorough 4200) "
             "bytes at B=2, i.e. up to 1100 (2100) blocks / pieces, so counts "
             "pass 257, 513, 1025, 2049; thorough adds real files of 257, 258, "
@@ -122,16 +123,17 @@ class CreateCheck:
         quick = tier == "quick"
         # R, trees
         if quick:
-            shapes3 = ["D2", "D2n", "D3", "D3s", "D3o", "D3u", "D3n", "D3t"]
+            shapes3 = ["D2", "D2n", "D3", "D3s", "D3o", "D3u", "D3n", "D3t",
+                       "D3d"]
             shapes4 = ["D4"]
             Ps = [16384, 32768]
         else:
             shapes3 = ["D2", "D2n", "D3", "D3s", "D3o", "D3u", "D3x", "D3n",
-                       "D3t"]
+                       "D3t", "D3d"]
             shapes4 = ["D4", "D4n", "D5"]
             Ps = [16384, 32768, 65536]
         if pid in ("C02", "C03", "C10") and quick:
-            shapes3 = ["D2n", "D3", "D3o", "D3u", "D3n", "D3t"]
+            shapes3 = ["D2n", "D3", "D3o", "D3u", "D3n", "D3t", "D3d"]
         for P in Ps:
             for sh in shapes3 + shapes4:
                 n = world.nfiles(sh)
@@ -182,6 +184,15 @@ class CreateCheck:
                     gs.append({"kind": "dense", "scale": "R", "B": REAL_B,
                                "P": P, "shape": "S1", "sizes": [sz],
                                "seed": seed, "listing": "native"})
+        # R, the largest piece lengths the validator accepts, tiny files
+        # (padding / zero-extension longer than 16 MiB)
+        for P in ([1 << 25] if quick else [1 << 20, 1 << 24, 1 << 25]):
+            for sh, alpha in (("D2n", [1, 16385]), ("S1", [1, 16385])):
+                for g in e1.size_groups(sh, alpha):
+                    gs.append({"kind": "tree", "scale": "R", "B": REAL_B,
+                               "P": P, "shape": sh, "alpha": alpha,
+                               "first": g["first"], "seed": seed,
+                               "listing": "native", "cli": True})
         # auto piece length + CLI route (R)
         for sh in ("S1", "D2n", "D3"):
             alpha = e1.r_alphabet(16384, "quick", 3)
